@@ -132,7 +132,83 @@ def program_family(res, tier, rnd):
     res.coverage["program_family"] = len(scs)
 
 
+def wide_family(res, tier, rnd):
+    """printed lines with double-width runes, accented letters and SGR styling (outside the Coq theorems' alphabet): the
+    real renderer's bytes through lib/widevt.py (cell widths, pending wrap, scrollback); after every render everything
+    from the top of the scrollback to the cursor row is: the wrapped printed lines in order, then the view"""
+    import json
+    import os
+    from .. import common as C
+    from .. import widevt as W
+    okb, out = C.build_harness()
+    if not okb:
+        raise C.Fail("harness build failed:\n" + out[-2000:])
+    glyphs = ["a", "b", "x", "0", " ", "\u00e9", "\u4e16", "\u754c", "\u65e5", "\u672c", "\uff57"]
+
+    def text(n):
+        s = ""
+        while W.width(s) < n:
+            s += rnd.choice(glyphs)
+        s = s.rstrip(" ") or "x"
+        if rnd.random() < 0.2:
+            s = "\x1b[1;35m" + s[:len(s) // 2] + "\x1b[0m" + s[len(s) // 2:]
+        return s
+    cases = []
+    for i in range(250 if tier == "quick" else 6000):
+        w, h = rnd.choice([(5, 6), (6, 4), (10, 5), (12, 6), (7, 8), (20, 6)])
+        ops = [{"op": "resize", "w": w, "h": h}]
+        nv = rnd.randint(1, max(1, h - 2))
+        view = [text(rnd.choice([1, w // 2, w - 1, w])) for _ in range(nv)]
+        ops += [{"op": "write", "s": list("\n".join(view).encode())}, {"op": "flush"}]
+        prints, checks = [], []
+        for k in range(rnd.choice([1, 2, 3])):
+            for _ in range(rnd.choice([1, 1, 2])):
+                ln = text(rnd.choice([1, w - 1, w, w + 1, w + 2, 2 * w - 1, 2 * w, 2 * w + 1, 3 * w]))
+                prints.append(ln)
+                ops.append({"op": "print", "s": list(ln.encode())})
+            if rnd.random() < 0.5:
+                view = [(text(rnd.choice([1, w // 2, w - 1, w])) if rnd.random() < 0.5 else l) for l in view]
+            ops += [{"op": "write", "s": list("\n".join(view).encode())}, {"op": "flush"}]
+            checks.append((len(ops) - 1, list(prints), list(view)))
+        cases.append({"id": i, "ops": ops, "w": w, "h": h, "checks": checks})
+    ip, op_ = os.path.join(C.CASES, "C14_wide.in.jsonl"), os.path.join(C.CASES, "C14_wide.out.jsonl")
+    with open(ip, "w") as f:
+        for c in cases:
+            f.write(json.dumps({"id": c["id"], "ops": c["ops"]}) + "\n")
+    rc, out, _ = C.run_harness(["renderer", "-out", op_, ip], timeout=600)
+    if rc != 0:
+        raise C.Fail("renderer harness failed: " + out[-1000:])
+    outs = C.read_jsonl(op_)
+    bad, untok = [], 0
+    for c, o in zip(cases, outs):
+        if o.get("panic"):
+            bad.append((c, "the renderer panicked: %s" % o["panic"]))
+            continue
+        vt = W.VT(c["w"], c["h"])
+        chk = {k: (p, v) for k, p, v in c["checks"]}
+        for k, b in enumerate(o["outs"]):
+            if not vt.feed(bytes(b)):
+                untok += 1
+                break
+            if k in chk:
+                prints, view = chk[k]
+                want = [r for ln in prints for r in W.wrap(ln, c["w"])] + W.expected_rows("\n".join(view), c["w"], c["h"])
+                scr = vt.s
+                got = scr.hist + [scr.text(i) for i in range(scr.r + 1)]
+                below = [scr.text(i) for i in range(scr.r + 1, c["h"])]
+                if got != want or any(below):
+                    bad.append((c, "printed %r over a %dx%d terminal; from the top of the scrollback to the cursor row the terminal shows %r (below: %r), expected the printed lines then the view: %r" %
+                                (prints, c["w"], c["h"], got, below, want)))
+                    break
+    res.oblige("exploration beyond the theorems' alphabet (printed lines with double-width runes, accented letters, SGR styling; Python terminal with cell widths and scrollback, not Coq): after every render the printed lines stand intact, in order, above the view, %d histories" % len(cases),
+               not bad and not untok, [b[1] for b in bad[:2]] or untok)
+    for c, what in bad[:1]:
+        res.violation("C14:wide-print", what, {"wide_case": {"ops": c["ops"], "w": c["w"], "h": c["h"]}})
+    res.coverage["wide_family"] = {"histories": len(cases), "printed_lines": sum(len(c["checks"][-1][1]) for c in cases)}
+
+
 def run(res, tier, seed):
+    wide_family(res, tier, random.Random(seed * 1019 + 14))
     rnd = random.Random(seed * 4001 + 14)
     program_family(res, tier, rnd)
     return R.run_family(res, "C14", PROPS, gen(rnd, tier),
